@@ -2,6 +2,7 @@ package main
 
 import (
 	"fmt"
+	"go/token"
 	"go/types"
 	"strings"
 
@@ -55,6 +56,14 @@ func (fr *Frame) call(site ssa.Instruction, c *ssa.CallCommon, st *State) []Val 
 				names = sp.ParamNames
 			}
 			return fr.callByContract(site, key, sp, names, tys, append([]Val{recv}, args...), sig, st, c.Method.Pkg())
+		}
+		// devirtualise when the dynamic type tag is a known numeral
+		if tv, ok := numVal(ITag(recv.T)); ok && tv.IsInt64() && tv.Int64() >= 1 && int(tv.Int64()) <= len(fc.eng.ti.idxType) {
+			ct := fc.eng.ti.idxType[tv.Int64()-1]
+			if m := fc.eng.prog.LookupMethod(ct, c.Method.Pkg(), c.Method.Name()); m != nil {
+				rv := fc.unbox(IPay(recv.T), ct)
+				return fr.callStatic(site, m, append([]Val{rv}, args...), st)
+			}
 		}
 		// try to devirtualise when the dynamic type is syntactically known (MakeInterface of concrete type)
 		if mi, ok := c.Value.(*ssa.MakeInterface); ok {
@@ -227,6 +236,10 @@ func (fr *Frame) callByContract(site ssa.Instruction, key string, sp *Block, nam
 	}
 	// ghost counters: `ghostinc name(key)` adds one to the ghost map `name` at `key`
 	for _, c := range sp.ClausesOf("ghostinc") {
+		// a ghost effect of the callee is an effect of the caller: it must be in the caller's frame
+		if k := strings.Index(c.Text, "("); k > 0 {
+			fr.checkWrite(st, site, locItem{kind: "ghost", ghost: "gmap:" + strings.TrimSpace(c.Text[:k])}, "ghost effect of callee "+short)
+		}
 		fr.ghostInc(mkEv(pre, pre), c, st)
 	}
 	var res []Val
@@ -411,15 +424,35 @@ func (fr *Frame) callFuncValue(site ssa.Instruction, c *ssa.CallCommon, fv Val, 
 	if fvv, ok := c.Value.(*ssa.FreeVar); ok {
 		pname = fvv.Name()
 	}
+	// a captured (by reference) or address-taken function variable: *freevar / *alloc
+	if u, ok := c.Value.(*ssa.UnOp); ok && u.Op == token.MUL {
+		switch x := u.X.(type) {
+		case *ssa.FreeVar:
+			pname = x.Name()
+		case *ssa.Alloc:
+			pname = x.Comment
+		}
+	}
 	var spec *Clause
-	if fr.spec != nil && pname != "" {
-		for _, cl := range fr.spec.ClausesOf("funcspec") {
+	var specFrame *Frame
+	// the funcspec may be declared on this function or on an enclosing one (closures, inlined callees)
+	for f := fr; f != nil && spec == nil && pname != ""; f = f.parent {
+		if f.spec == nil {
+			continue
+		}
+		for _, cl := range f.spec.ClausesOf("funcspec") {
 			if strings.HasPrefix(cl.Text, pname+" ") || cl.Text == pname {
 				spec = cl
+				specFrame = f
 			}
 		}
 	}
 	if spec == nil {
+		// function values of opaque external types (context.CancelFunc, ...) behave like opaque calls
+		if nt, ok := types.Unalias(c.Value.Type()).(*types.Named); ok && nt.Obj().Pkg() != nil && fc.eng.opaquePath(nt.Obj().Pkg().Path()) {
+			fc.oblige(st, "nil", fr.path, Ne(fv.T, IntLit(0)), fr.pos(site), "call of nil function value")
+			return fr.opaqueResults(site, c.Value.Type().Underlying().(*types.Signature), st, nt.Obj().Pkg().Path()+"."+nt.Obj().Name())
+		}
 		unsup("%s: dynamic call through %s without funcspec", fr.pos(site), c.Value.Name())
 	}
 	fc.oblige(st, "nil", fr.path, Ne(fv.T, IntLit(0)), fr.pos(site), "call of nil function value")
@@ -444,8 +477,8 @@ func (fr *Frame) callFuncValue(site ssa.Instruction, c *ssa.CallCommon, fv Val, 
 			if err != nil {
 				unsup("%s:%d: %v", spec.File, spec.Line, err)
 			}
-			evPre := fr.evalCtx(pre, fr.entry)
-			evPost := fr.evalCtx(st, fr.entry)
+			evPre := specFrame.evalCtx(pre, specFrame.entry)
+			evPost := specFrame.evalCtx(st, specFrame.entry)
 			a := evPre.eval(e)
 			b := evPost.eval(e)
 			fc.assume(st, eqVal(a.V, b.V))
@@ -522,6 +555,26 @@ func (fr *Frame) callBuiltin(site ssa.Instruction, b *ssa.Builtin, c *ssa.CallCo
 			addLen = SLen(args[1].T)
 		}
 		fc.note("append returns a freshly allocated backing array (aliasing of spare capacity not modelled)")
+		if n, ok := numVal(addLen); ok && !isStr && n.IsInt64() && n.Int64() <= 4 && peek(SOff(s)).S == "0" {
+			// small concrete addition: the new array is the old row with the new elements stored behind it -
+			// an explicit store chain, so later reads resolve syntactically (chains of appends stay executable)
+			obj := fr.allocRaw(st)
+			newLen := Add(SLen(s), addLen)
+			newCap := fc.sc.Fresh("appcap", SInt)
+			fc.assume(st, And(Ge(newCap, newLen), Le(newCap, maxAlloc)))
+			a := args[1].T
+			lay := ti.LayoutOf(st0.Elem())
+			for _, lf := range lay.Leaves {
+				h := fc.leafHeap(st, lf.Sort)
+				row := Select(h, SArr(s))
+				for j := int64(0); j < n.Int64(); j++ {
+					src := HSel(h, SArr(a), Add(SOff(a), IntLit(j*w+lf.Off)))
+					row = Store(row, Add(Mul(Add(SLen(s), IntLit(j)), IntLit(w)), IntLit(lf.Off)), src)
+				}
+				fc.setHeap(st, leafHeapName(lf.Sort), Store(h, obj, row))
+			}
+			return []Val{scalar(MkSlice(obj, IntLit(0), newLen, newCap))}
+		}
 		obj := fr.allocRaw(st)
 		newLen := fc.sc.Define("applen", Add(SLen(s), addLen))
 		newCap := fc.sc.Fresh("appcap", SInt)
